@@ -118,6 +118,53 @@ pub fn check_cfg(cfg: &Cfg) -> Result<u64, (String, String)> {
     Ok(items.len() as u64)
 }
 
+/// Thorough only: a schedule of u32::MAX attempts walked to its very end (4 294 967 295 items),
+/// every item's number checked, the delay compared with the law on every 2^16-th item and on the
+/// last 1000, and the end must be the end.
+pub fn full_walk(law: Law) -> Result<u64, (String, String)> {
+    let cfg = Cfg { law, step: Duration::from_nanos(1), attempts: u32::MAX, max: Some(Duration::from_secs(1)) };
+    let lawname = match law {
+        Law::Constant => "constant",
+        Law::Linear => "linear",
+        Law::Exponential(_) => "exponential",
+    };
+    let r = guarded(|| {
+        let mut it = build(&cfg).into_iter();
+        let mut n: u64 = 0;
+        loop {
+            match it.next() {
+                Some(a) => {
+                    n += 1;
+                    if a.attempt_num as u64 != n {
+                        return Err((format!("full-walk-numbering:{lawname}"), format!("item {n} of a schedule of u32::MAX attempts is numbered {}", a.attempt_num)));
+                    }
+                    if n % 65536 == 0 || n > u32::MAX as u64 - 1000 {
+                        let want = expected_ns(&cfg, n as u32);
+                        if a.duration.as_nanos() != want {
+                            return Err((format!("full-walk-law:{lawname}"), format!("attempt {n}: delay {} ns, law gives {want} ns", a.duration.as_nanos())));
+                        }
+                    }
+                    if n > u32::MAX as u64 {
+                        return Err((format!("full-walk-count:{lawname}"), format!("a schedule of {} attempts yielded item number {n}", u32::MAX)));
+                    }
+                }
+                None => break,
+            }
+        }
+        if n != u32::MAX as u64 {
+            return Err((format!("full-walk-count:{lawname}"), format!("a schedule of {} attempts ended after {n}", u32::MAX)));
+        }
+        for _ in 0..3 {
+            if it.next().is_some() {
+                return Err((format!("resurrects:{lawname}"), "a schedule of u32::MAX attempts yielded an item after returning None".into()));
+            }
+        }
+        Ok(n)
+    })
+    .map_err(|(m, l)| (format!("panic:{lawname}:full-walk"), format!("walking a schedule of u32::MAX attempts panicked: {m} at {l}")))?;
+    r
+}
+
 pub fn space(thorough: bool) -> Vec<Cfg> {
     let mut steps = vec![
         Duration::ZERO,
@@ -169,6 +216,11 @@ pub fn run(tier: &str) {
     let mut distinct = HashSet::new();
     let mut nontrivial = 0u64;
     let mut samples = Vec::new();
+    let walks: Vec<(Law, std::thread::JoinHandle<Result<u64, (String, String)>>)> = if tier == "thorough" {
+        [Law::Constant, Law::Linear, Law::Exponential(2)].into_iter().map(|l| (l, std::thread::spawn(move || full_walk(l)))).collect()
+    } else {
+        Vec::new()
+    };
     for (i, c) in sp.iter().enumerate() {
         if distinct.insert(format!("{c:?}")) && c.attempts > 0 {
             nontrivial += 1;
@@ -190,21 +242,41 @@ pub fn run(tier: &str) {
             }),
         }
     }
+    let mut walked = 0u64;
+    let nwalks = walks.len();
+    for (law, h) in walks {
+        let case = json!({"family": "full-walk", "law": format!("{law:?}")});
+        match h.join().unwrap_or_else(|_| Err(("panic:full-walk".to_string(), "the walking thread panicked".to_string()))) {
+            Ok(n) => walked += n,
+            Err((clause, msg)) => rep.violation(Violation {
+                property: "C13".into(),
+                clause: clause.clone(),
+                fingerprint: format!("C13:{clause}"),
+                message: format!("{msg}; configuration {case}"),
+                case,
+                choices: vec![],
+                deviations: 0,
+                trace: vec![],
+            }),
+        }
+    }
     let coverage = json!({
-        "evaluations": sp.len(),
+        "evaluations": sp.len() + nwalks,
+        "full_walk_items_checked": walked,
         "distinct_nontrivial": nontrivial,
-        "rule": "full grid {constant, linear, exponential(f) for f in {0,1,2,3,10,2^16,2^32,u64::MAX}} x 7 steps (0, 1ns, 1ms, 1s, 2^32 s, Duration::MAX/2, Duration::MAX) x attempts {0,1,2,3,21,64,65,100,1000,u32::MAX(first 100 items)} x max delay {none, 0, 1s, 1h, Duration::MAX} [thorough: 12 steps x 14 factors x attempts {0..=70,95,100,127,128,129,1000,4000,u32::MAX-1,u32::MAX} x 8 maxima]; each schedule drained under catch_unwind in a build with overflow checks on, every item compared with the law evaluated in saturating u128 nanoseconds. non-trivial = at least one attempt",
+        "rule": "full grid {constant, linear, exponential(f) for f in {0,1,2,3,10,2^16,2^32,u64::MAX}} x 7 steps (0, 1ns, 1ms, 1s, 2^32 s, Duration::MAX/2, Duration::MAX) x attempts {0,1,2,3,21,64,65,100,1000,u32::MAX(first 100 items)} x max delay {none, 0, 1s, 1h, Duration::MAX} [thorough: 12 steps x 14 factors x attempts {0..=70,95,100,127,128,129,1000,4000,u32::MAX-1,u32::MAX} x 8 maxima]; each schedule drained under catch_unwind in a build with overflow checks on, every item compared with the law evaluated in saturating u128 nanoseconds; thorough also walks three schedules of u32::MAX attempts (constant, linear, exponential(2); step 1 ns, maximum 1 s) to their very end: every item's number, the delay of every 65536th item and of the last 1000, and the end staying the end. non-trivial = at least one attempt",
         "exhaustive": true,
         "schedule_items_checked": items,
         "samples": samples,
         "explanation": "exponential delays may be computed in f64: equality is required up to max(1 ns, 2^-50 relative); constant and linear must be exact"
     });
-    rep.assume("schedules with more than 5000 attempts are checked on their first 100 items only");
+    rep.assume("schedules with more than 5000 attempts are checked on their first 100 items only (thorough: three of them are walked to the end)");
     rep.finish(coverage);
 }
 
 pub fn replay(case: &Value) -> Option<String> {
     let law = case["law"].as_str()?;
+    let full = case["family"].as_str() == Some("full-walk");
     let law = if law == "Constant" {
         Law::Constant
     } else if law == "Linear" {
@@ -217,6 +289,10 @@ pub fn replay(case: &Value) -> Option<String> {
         let n: u128 = s.parse().ok()?;
         Some(Duration::new((n / 1_000_000_000) as u64, (n % 1_000_000_000) as u32))
     };
+    if full {
+        println!("full walk of {law:?}");
+        return full_walk(law).err().map(|e| format!("{}: {}", e.0, e.1));
+    }
     let cfg = Cfg {
         law,
         step: ns(case["step_ns"].as_str()?)?,
